@@ -43,6 +43,11 @@ pub enum Source {
         strategy: fn(Tier) -> BoxedStrategy<Scenario>,
         cases: fn(Tier) -> u32,
     },
+    /// like Random, for expensive cases: few shrink iterations
+    RandomCostly {
+        strategy: fn(Tier) -> BoxedStrategy<Scenario>,
+        cases: fn(Tier) -> u32,
+    },
     /// a finite family enumerated completely; `index` picks the shard's share
     Exhaustive {
         enumerate: fn(Tier) -> Box<dyn Iterator<Item = Scenario>>,
@@ -229,6 +234,22 @@ impl<'a> Acc<'a> {
         let ex = run_scenario(sc);
         let mut info = CaseInfo::default();
         let findings = (part.oracle)(sc, &ex, &mut info);
+        if let Ok(want) = std::env::var("MQV_DUMP_VERDICT") {
+            if verdict_name(&ex) == want {
+                let v = ViolationReport {
+                    part: part.name.to_string(),
+                    findings: findings.clone(),
+                    trace_rle: rle(&ex.outcome.trace),
+                    verdict: format!("{:?}", ex.outcome.verdict),
+                    scenario: sc.clone(),
+                    shrunk: false,
+                };
+                let body = serde_json::json!({"property": self.prop, "case": v});
+                std::fs::write("/verif/.work/dump.json", serde_json::to_string(&body).unwrap()).ok();
+                eprintln!("dumped a {} case to /verif/.work/dump.json", want);
+                std::process::exit(3);
+            }
+        }
         let mut unknown = Vec::new();
         let mut known_hits: Vec<(String, String)> = Vec::new();
         for f in findings {
@@ -403,12 +424,13 @@ pub fn run_prop(
                     }
                 }
             }
-            Source::Random { strategy, cases } => {
+            Source::Random { strategy, cases } | Source::RandomCostly { strategy, cases } => {
+                let costly = matches!(part.source, Source::RandomCostly { .. });
                 let n = ((cases(tier) as f64) * scale).ceil().max(1.0) as u32;
                 let cfg = Config {
                     cases: n,
                     failure_persistence: None,
-                    max_shrink_iters: 3000,
+                    max_shrink_iters: if costly { 30 } else { 3000 },
                     max_global_rejects: 10_000,
                     ..Config::default()
                 };
@@ -433,7 +455,7 @@ pub fn run_prop(
                     Err(TestError::Fail(_, sc)) => {
                         // greedy post-pass, then re-run the minimal case to get its findings and trace
                         acc.failed = true;
-                        let sc = minimize(&mut acc, part, sc);
+                        let sc = if costly { sc } else { minimize(&mut acc, part, sc) };
                         let (unknown, ex) = acc.eval(part, &sc, false);
                         acc.rep.violations.push(ViolationReport {
                             part: part.name.to_string(),
